@@ -2,6 +2,7 @@ package main
 
 import (
 	"fmt"
+	"go/token"
 	"go/types"
 	"strings"
 
@@ -251,6 +252,7 @@ func c16FlowControl(c *Check) {
 	c16SnapshotExit(c)
 	// the configured limits reach every inflight window
 	c16Limits(c)
+	c16FreeLE(c)
 	// --- C16.U: uncommitted size
 	c16Uncommitted(c)
 }
@@ -497,6 +499,29 @@ func c16Uncommitted(c *Check) {
 			c.Bad("C16.U", "store raft.uncommittedSize", fnName(st.Fn), site, "only increase/reduceUncommittedSize and reset", "")
 		}
 	}
+	// each entry's payload is released exactly once: when its application is acknowledged
+	if reduce != nil {
+		step := p.Method("raft", "raft", "Step")
+		getType := p.Method("raftpb", "Message", "GetType")
+		applyResp := p.ConstVal("raftpb", "MsgStorageApplyResp")
+		nRel := 0
+		for _, cs := range p.CallsTo(reduce) {
+			nRel++
+			cfi := p.Info(cs.Caller)
+			ok := false
+			detail := "caller is not Step"
+			if cs.Caller == step && getType != nil {
+				m := cfi.Sym(step.Params[1])
+				f := cfi.FactsAt(cs.Instr)
+				ok = f.EnumFact(CallSym(getType, m), applyResp) == 1
+				a := cfi.Sym(callArgs(cs.Instr)[1])
+				ok = ok && a.K == KCall && a.Fn == payloadsSize && strings.HasPrefix(a.Args[0].Key(), m.Key())
+				detail = "argument " + sanitizeKey(a.Key())
+			}
+			c.Result(ok, "C16.U", "release of uncommitted bytes", fnName(cs.Caller), p.site(cs.Instr), "only Step on MsgStorageApplyResp, with payloadsSize of that message's entries (released once per entry)", detail)
+		}
+		c.Result(nRel >= 1, "C16.U", "uncommitted bytes are released", fnName(reduce), p.Pos(reduce.Pos()), "reduceUncommittedSize is called", fmt.Sprint(nRel))
+	}
 	// stepLeader maps a false appendEntry to ErrProposalDropped (shared with C20.D)
 	if stepLeader != nil {
 		sfi := p.Info(stepLeader)
@@ -689,4 +714,40 @@ func pointerEscapes(al *ssa.Alloc) bool {
 		}
 	}
 	return false
+}
+
+// c16FreeLE — C16.I: FreeLE releases only messages whose last index is at or below the
+// acknowledged index: whatever it accumulates (bytes, count) for an element is behind the test
+// `!(to < element.index)`. An acknowledgement that falls inside a multi-entry message must not
+// release that message.
+func c16FreeLE(c *Check) {
+	p := c.P
+	freeLE := p.Method("tracker", "Inflights", "FreeLE")
+	bytesF := p.Field("tracker", "inflight", "bytes")
+	indexF := p.Field("tracker", "inflight", "index")
+	if freeLE == nil || bytesF == nil || indexF == nil {
+		return
+	}
+	fi := p.Info(freeLE)
+	to := fi.Sym(freeLE.Params[1])
+	n := 0
+	for _, in := range p.liveInstrsOf(freeLE) {
+		bo, ok := in.(*ssa.BinOp)
+		if !ok || bo.Op != token.ADD {
+			continue
+		}
+		for _, opnd := range []ssa.Value{bo.X, bo.Y} {
+			sy := fi.Sym(opnd)
+			if sy.K != KField || sy.Fld != bytesF || len(sy.Args) == 0 {
+				continue
+			}
+			n++
+			elem := sy.Args[0]
+			f := fi.FactsAt(in)
+			tested := &Facts{FI: fi, Atoms: f.Tested}
+			ok := tested.ImpliesCmp(FieldOf(elem, indexF), "<=", to)
+			c.Result(ok, "C16.I", "FreeLE accounts an in-flight message as released", fnName(freeLE), p.site(in), "only behind !(to < message.index): messages not fully acknowledged stay counted", strings.Join(f.Describe(), "; "))
+		}
+	}
+	c.Result(n >= 1, "C16.I", "FreeLE accumulates released bytes", fnName(freeLE), p.Pos(freeLE.Pos()), "the released byte count is summed from the released messages", fmt.Sprint(n))
 }
